@@ -322,7 +322,7 @@ fn random_plan(rng: &mut Rng, n: usize) -> Plan {
 
 pub fn run(tier: Tier, replay: Option<Value>) -> i32 {
     let run = Run::new("C06", "exploration", tier, replay.clone());
-    let n_scen = tier.pick(2u64, 4);
+    let n_scen = tier.pick(2u64, 12);
     for case in 0..n_scen {
         if let Some(r) = &replay {
             if r.get("case").and_then(|c| c.as_u64()) != Some(case) {
@@ -346,7 +346,7 @@ pub fn run(tier: Tier, replay: Option<Value>) -> i32 {
                 Tier::Thorough => p.extend(plans_bound2(n, 1)),
             }
             let mut rng = Rng::for_case(run.seed, case, 8);
-            for _ in 0..tier.pick(150, 2000) {
+            for _ in 0..tier.pick(150, 4000) {
                 p.push(random_plan(&mut rng, n));
             }
             p
